@@ -155,7 +155,7 @@ class Builder(ast.NodeVisitor):
         for kind, lst in (('posonly', getattr(args, 'posonlyargs', [])), ('std', args.args)):
             for a in lst:
                 o = self.occ(a, (id(a), 'arg'), a.arg, 'param', scope=scope)
-                scope.params[o.name] = kind
+                scope.params[o.name] = 'posonly' if getattr(a, '_vf_posonly', False) else kind
                 if first:
                     scope.first_param = o.name
                     first = False
